@@ -711,5 +711,16 @@ m('patch-metageneration-from-unlocked-read','C07',GCS,
 		// record (and with copies of it), which a failed or concurrent patch
 		// must never touch.
 		metagen := pre.Metageneration''','R66/','two concurrent patches both compute metageneration+1 from the same unlocked read: one increment is lost')
+# ---- C11 / R67, C09 / R68
+m('list-cursor-and-prefix-folded','C11','storage/gcsemu/walk.go',
+  '''		if filename <= cursor {''','''		if filename <= max(cursor, prefix) {''','R67/','the object named exactly like the prefix is never listed')
+m('filestore-add-mkdir-only-for-nested-names','C09','storage/gcsemu/filestore.go',
+  '''	if err := os.MkdirAll(filepath.Dir(f), 0777); err != nil {
+		return fmt.Errorf("could not create dirs for:  %s: %w", f, err)
+	}''','''	if strings.Contains(filename, "/") {
+		if err := os.MkdirAll(filepath.Dir(f), 0777); err != nil {
+			return fmt.Errorf("could not create dirs for:  %s: %w", f, err)
+		}
+	}''','R68/','a top-level object in a bucket whose directory was removed cannot be written')
 json.dump(M, open('/verif/mutants.json','w'), indent=1)
 print(len(M),'mutants')
